@@ -202,7 +202,10 @@ func runC08(c *Ctx) {
 					break // something else runs before the unlock is registered
 				}
 			}
-			c.check(okp, "lock-pairing", relName(f)+"#lock", ci.Pos(), "Lock followed (same block, nothing called in between) by defer Unlock of the same mutex, or by the Unlock itself", "Lock without a directly following (deferred) Unlock of the same mutex")
+			if !okp {
+				okp = unlockedOnEveryPath(ci, want)
+			}
+			c.check(okp, "lock-pairing", relName(f)+"#lock", ci.Pos(), "Lock followed (same block, nothing called in between) by defer Unlock of the same mutex, or by the Unlock itself, or every path from the Lock passes an Unlock of the same mutex before it returns, with no interface or function-value call while it is held", "Lock without a directly following (deferred) Unlock of the same mutex, and some path from it returns (or calls foreign code) before the mutex is unlocked")
 		}
 	}
 
@@ -704,4 +707,54 @@ func c08ReplyChannels(c *Ctx) {
 	if !found {
 		c.bad("reply-capacity", "reply-channels", 0, "no reply channels found")
 	}
+}
+
+// unlockedOnEveryPath: the explicit form of the pairing. Every path from the Lock reaches an Unlock (plain or
+// deferred) of the same mutex before a return, a panic, a second Lock of it, or a call whose callee is not statically
+// known (foreign code run under the lock).
+func unlockedOnEveryPath(lock *ssa.Call, want string) bool {
+	mu := lock.Call.Args[0]
+	seen := map[*ssa.BasicBlock]bool{}
+	var walk func(b *ssa.BasicBlock, from int) bool
+	walk = func(b *ssa.BasicBlock, from int) bool {
+		for _, j := range b.Instrs[from:] {
+			switch x := j.(type) {
+			case *ssa.Defer:
+				if calleeFullName(x) == want && sameValue(x.Call.Args[0], mu) {
+					return true
+				}
+			case *ssa.Call:
+				if calleeFullName(x) == want && len(x.Call.Args) > 0 && sameValue(x.Call.Args[0], mu) {
+					return true
+				}
+				if x.Call.IsInvoke() {
+					return false
+				}
+				if _, isBuiltin := x.Call.Value.(*ssa.Builtin); !isBuiltin && staticCallee(x) == nil {
+					return false
+				}
+				if calleeFullName(x) == calleeFullName(lock) && len(x.Call.Args) > 0 && sameValue(x.Call.Args[0], mu) {
+					return false
+				}
+			case *ssa.Go:
+				return false
+			case *ssa.Return, *ssa.Panic:
+				return false
+			}
+		}
+		if len(b.Succs) == 0 {
+			return false
+		}
+		for _, sc := range b.Succs {
+			if seen[sc] {
+				continue
+			}
+			seen[sc] = true
+			if !walk(sc, 0) {
+				return false
+			}
+		}
+		return true
+	}
+	return walk(lock.Block(), instrIndex(lock)+1)
 }
